@@ -78,12 +78,12 @@ Theorem C07_limiter_faces dt nf psd k : length nf = S (length psd) -> 0 < dt -> 
 Proof. exact (limiter_faces dt nf psd k). Qed.
 Print Assumptions C07_limiter_faces.
 
-(* faces already within bounds are unchanged; no face is reversed or amplified *)
-Theorem C07_limiter_minimal dt nf psd k : length nf = S (length psd) -> (k <= length psd)%nat ->
-  ((k < length psd)%nat -> - nthR psd k <= nthR nf k * dt) ->
-  ((0 < k)%nat -> nthR nf k * dt <= nthR psd (k - 1)) ->
-  nthR (correctFlux Rops dt nf psd) k = nthR nf k.
-Proof. exact (limiter_minimal dt nf psd k). Qed.
+(* when no class would lose more than it holds the corrector changes nothing; no face is ever
+   reversed or amplified *)
+Theorem C07_limiter_minimal dt nf psd : length nf = S (length psd) -> 0 < dt -> nonneg psd ->
+  (forall i, (i < length psd)%nat -> outflowR dt nf i <= nthR psd i) ->
+  forall k, (k <= length psd)%nat -> nthR (correctFlux Rops dt nf psd) k = nthR nf k.
+Proof. exact (limiter_minimal dt nf psd). Qed.
 Print Assumptions C07_limiter_minimal.
 
 Theorem C07_limiter_shrinks dt nf psd k : length nf = S (length psd) -> (k <= length psd)%nat ->
@@ -92,6 +92,15 @@ Theorem C07_limiter_shrinks dt nf psd k : length nf = S (length psd) -> (k <= le
   (nthR nf k <= 0 -> nthR nf k <= nthR (correctFlux Rops dt nf psd) k <= 0).
 Proof. exact (limiter_shrinks dt nf psd k). Qed.
 Print Assumptions C07_limiter_shrinks.
+
+(* after the correction the total leaving a class through both faces is at most what it holds, so
+   NO class becomes negative in a step (since kawin commit "fix: limit the total outflow of a size
+   class"), in particular: *)
+Theorem C07_class_nonneg dt bounds psd g nucRate Rnuc k :
+  wf bounds psd g -> nonneg psd -> 0 < dt -> 0 <= nucRate -> (k < length psd)%nat ->
+  0 <= nthR psd k + dt * nthR (correctdXdt Rops dt bounds psd g nucRate Rnuc) k.
+Proof. exact (class_nonneg dt bounds psd g nucRate Rnuc k). Qed.
+Print Assumptions C07_class_nonneg.
 
 (* classes that obey the step limit (ratio r <= 1/2 on both faces) never become negative *)
 Theorem C07_cfl_nonneg dt r bounds psd g nucRate Rnuc k :
